@@ -136,6 +136,11 @@ class GatePolicy(taint.Policy):
                 inner = self.f.ty(td["to"])
                 if inner.get("k") in ("slice", "array") and self.f.ty(inner["elem"]).get("k") == "uint":
                     return self.describer(eng, fn).slice_of(op) or ("l", "?")
+                if inner.get("k") in ("ref", "ptr"):
+                    # `&&[u8]` (comparison of two `&[u8]` values, `a == b`): the slice behind the inner reference
+                    d = self.describer(eng, fn).b.single_def(op[1][0])
+                    if d and d[2] == "A" and d[3][2][0] == "ref" and len(d[3][2][2]) == 1:
+                        return self.slice_arg(eng, fn, ["cp", [d[3][2][2][0]]])
         return None
 
     def call_labels(self, eng, fn, bi, callee, argv):
@@ -146,7 +151,8 @@ class GatePolicy(taint.Policy):
             if GATE_CALLEE.fullmatch(nn):
                 track = True
         else:
-            if any(x in name for x in EXT_GATE) and ("[" in name or "slice" in name or "array" in name):
+            if any(x in name for x in EXT_GATE) and ("[" in name or "slice" in name or "array" in name
+                                                     or ("for &A" in name and any(str(x).startswith("[") for x in (callee.get("g") or [])))):
                 track = True
                 nn = "slice_eq"
         if not track:
@@ -208,6 +214,13 @@ class GateAnalysis(taint.FnAnalysis):
                     # `fn status_to_byte(status: u32) -> u8 { status as u8 }`: the helper form of the same cast
                     labs = self.st_read(st, (place[0], ()))
                     key = ("maskbyte", line, "mask byte from a status parameter")
+                    self.events[key] = self.events.get(key, taint.EMPTY) | labs | frozenset([("maskmark",)])
+                if d is not None and l is not None and self.f.ty(self.body.local_ty(l)).get("bits") == 32 and (
+                        (d[2] == "A" and d[3][2][0] == "bin" and d[3][2][1] in ("BitAnd", "BitOr"))
+                        or (d[2] == "call" and d[3][1].get("l"))):
+                    # `let keep = ok as u8; .. & !keep`: the status itself as a byte (inverse-polarity mask)
+                    labs = self.st_read(st, (place[0], ()))
+                    key = ("maskbyte", line, "mask byte from status")
                     self.events[key] = self.events.get(key, taint.EMPTY) | labs | frozenset([("maskmark",)])
                 if d and d[2] == "A" and d[3][2][0] == "un" and d[3][2][1] == "Not":
                     sl = operand_local(d[3][2][2])
@@ -371,6 +384,8 @@ def _failure_rvalue(rv):
         k = rv[1]
         if k.get("path", "").endswith("option::Option") and k.get("variant") == 0:
             return True
+        if k.get("path", "").endswith("result::Result") and k.get("variant") == 1:
+            return True         # `Err(..)` of an internal Result (`.ok()` / `.is_ok()` at the public boundary)
         if k.get("k") == "tuple" and rv[2] and const_int(rv[2][-1]) == 0:
             return True
     return False
@@ -560,6 +575,17 @@ def gate_strings(summ, include_out=False, pol=None, fn=None, labmap=None):
                 out.add(s)
                 if labmap is not None:
                     labmap.setdefault(s, set()).add(l)
+    # `x < c || x > c` is the test `x != c` spelled as two range tests (canonically `Lt c` and `Lt c+1`)
+    for s in sorted(out):
+        m = re.fullmatch(r"((?:lencmp|elemcmp|valcmp):.*) Lt (\d+)", s)
+        if m:
+            nxt = "%s Lt %d" % (m.group(1), int(m.group(2)) + 1)
+            if nxt in out:
+                syn = "%s Ne %s" % (m.group(1), m.group(2))
+                if syn not in out:
+                    out.add(syn)
+                    if labmap is not None:
+                        labmap.setdefault(syn, set()).update(labmap.get(s, set()) | labmap.get(nxt, set()))
     return out
 
 
